@@ -24,6 +24,9 @@
 EXTENDS Rat, FiniteSets, TLC, Json
 
 CONSTANT Instances        \* Part B: sequence of [y0, t0, a0, a1, a2, b, atol, rtol, p]
+\* Part A transcribes code; these two switches say WHICH code (the harness sets both to TRUE, the repaired tree):
+CONSTANTS GuardedDt0,     \* TRUE: dt0 guards ||u0|| < 1e-5 with 1e-6     (repo patch c18_dt0_guard.diff)
+          WeightedNorms   \* TRUE: dt0_adaptive takes d0, d1 in the tolerance-weighted norm (c18_dt0_adaptive_weighted.diff)
 VARIABLES i, st
 
 IMin(a, b) == IF a <= b THEN a ELSE b
@@ -176,20 +179,41 @@ ArithLaws ==
 (* Part A.3  the two helpers, branch by branch                               *)
 (***************************************************************************)
 \* dt0(vf, (u0,), scale=0.01, nugget=1e-5):
-\*     norm_y0 = ||u0||;  norm_dy0 = ||f0|| + nugget;  return scale * norm_y0 / norm_dy0
+\*     norm_y0 = ||u0||;  norm_dy0 = ||f0|| + nugget
+\*     GuardedDt0:      return where(norm_y0 < 1e-5, 1e-6, scale * norm_y0 / norm_dy0)
+\*     ~GuardedDt0:     return scale * norm_y0 / norm_dy0                                 (the pinned tree)
 Dt0Simple(U0, F0) ==
   With2(NormF(U0), Add(NormF(F0), Const(-5)), LAMBDA ny, ndy :
-    Div(Mul(Const(-2), ny), ndy))
+    IF GuardedDt0
+    THEN Join(IF CanLt(ny, -5) THEN Const(-6) ELSE Bot,
+              IF NonEmpty(GePart(ny, -5)) THEN Div(Mul(Const(-2), GePart(ny, -5)), ndy) ELSE Bot)
+    ELSE Div(Mul(Const(-2), ny), ndy))
 
 \* dt0_adaptive(vf, (y0,), t0, error_contraction_rate, rtol, atol):
 \*     scale = atol + |y0| * rtol                       (elementwise: between atol and atol + ||y0|| rtol)
-\*     d0, d1 = ||y0||, ||f0||
+\*     WeightedNorms:   d0, d1 = ||y0 / scale||, ||f0 / scale||
+\*     ~WeightedNorms:  d0, d1 = ||y0||, ||f0||                                           (the pinned tree)
 \*     dt0 = where((d0 < 1e-5) | (d1 < 1e-5), 1e-6, 0.01 * d0 / d1)
 \*     y1 = y0 + dt0 * f0;  f1 = f(y1, t0 + dt0)        (||f1 - f0|| is an input class of the model)
 \*     d2 = ||(f1 - f0) / scale|| / dt0
 \*     dt1 = where((d1 <= 1e-15) & (d2 <= 1e-15), maximum(1e-6, dt0 * 1e-3), (0.01 / maximum(d1, d2)) ** (1/(rate+1)))
 \*     return minimum(100 * dt0, dt1)
 Scale(U0, ATOL, RTOL) == Join(Add(ATOL, AZero), Add(ATOL, Mul(U0, RTOL)))
+
+\* ||y0 / scale|| for scale_i = atol + |y0_i| rtol.  Numerator and denominator are correlated: an entry is
+\*     x / (a + x r),   increasing in x,   and   min(x/a, 1/r) / 2  <=  x / (a + x r)  <=  min(x/a, 1/r) ;
+\* the norm of a vector with n <= 25 entries whose largest entry is at least ||y0|| / sqrt(n) therefore lies within one
+\* decade of min(||y0|| / a, 1 / r)  (Widen).  float64: |y0| * rtol may overflow, then the entry is x / inf = 0;
+\* an infinite entry gives inf / inf = nan.  Without purely positive finite tolerances: plain interval quotient.
+PurePos(a) == P(a) /\ ~a.z /\ ~a.inf /\ ~a.nan
+Widen(a)   == IF P(a) THEN AV(a.z, IMax(a.lo - 1, EMIN), IMin(a.hi + 1, EMAX), a.inf, a.nan) ELSE a
+AInf       == AV(FALSE, 1, 0, TRUE, FALSE)
+WeightedSelf(U0, ATOL, RTOL) ==
+  IF PurePos(ATOL) /\ PurePos(RTOL)
+  THEN Join(Widen(Min(Div(U0, ATOL), Div(Const(0), RTOL))),
+            Join(IF Mul(U0, RTOL).inf THEN Div(U0, AInf) ELSE Bot,
+                 IF U0.inf THEN AV(FALSE, 1, 0, FALSE, TRUE) ELSE Bot))
+  ELSE Div(U0, Scale(U0, ATOL, RTOL))
 
 \* stage 1: the feasible (branch, dt0, d1-on-that-branch) triples
 Stage1(d0, d1) ==
@@ -211,8 +235,9 @@ Stage2(s1, d2) ==
 
 \* all feasible paths (independent of the rate): set of [b1, b2, c0 = 100 dt0, v]
 AdaptivePaths(U0, F0, DF, ATOL, RTOL) ==
-  With2(NormF(U0), NormF(F0), LAMBDA d0, d1 :
-    With(Scale(U0, ATOL, RTOL), LAMBDA sc :
+  With(Scale(U0, ATOL, RTOL), LAMBDA sc :
+    With2(IF WeightedNorms THEN NormF(WeightedSelf(U0, ATOL, RTOL)) ELSE NormF(U0),
+          IF WeightedNorms THEN NormF(Div(F0, sc)) ELSE NormF(F0), LAMBDA d0, d1 :
       UNION { With(Div(NormF(Div(DF, sc)), s1.h0), LAMBDA d2 :
                 { [b1 |-> s1.b1, b2 |-> s2.b2, c0 |-> Mul(Const(2), s1.h0), v |-> s2.v] : s2 \in Stage2(s1, d2) })
               : s1 \in Stage1(d0, d1) }))
@@ -269,10 +294,15 @@ PositiveFiniteAdaptive == st.helper = "dt0_adaptive" => PositiveFinite
 ModeratePositiveFinite == (Complete /\ Moderate(st)) => UnionOf(ByRateWith(st, OfModerate)) \subseteq PosFin
 \* nan inputs are reported, not laundered: a nan tolerance gives nan
 NanTolerancePropagates == (Complete /\ st.helper = "dt0_adaptive" /\ st.atol = "nan") => ResultClasses(st) = {"nan"}
-\* when ||u0|| < 1e-5 the tolerance-aware helper guards with dt0 = 1e-6, so it never proposes more than 1e-4
+\* when d0 < 1e-5 the tolerance-aware helper guards with dt0 = 1e-6, so it never proposes more than 1e-4; d0 is
+\* below 1e-5 for a zero state, and for every state below 1e-5 if the norms are not weighted
 GuardBoundsStep ==
-  (Complete /\ st.helper = "dt0_adaptive" /\ st.u0 \in {"zero", "tiny", "small"})
+  (Complete /\ st.helper = "dt0_adaptive" /\ (st.u0 = "zero" \/ (~WeightedNorms /\ st.u0 \in {"tiny", "small"})))
      => ResultClasses(st) \subseteq {"zero", "tiny", "small", "normal", "nan"}
+\* the guard of dt0 (if present) makes it positive and finite for every state that is not huge and every finite f0
+GuardedDt0PositiveFinite ==
+  (Complete /\ GuardedDt0 /\ st.helper = "dt0" /\ st.u0 \in {"zero", "tiny", "small", "normal"} /\ st.f0 \in {"zero", "tiny", "small", "normal"})
+     => ResultClasses(st) \subseteq PosFin
 
 Export ==
   (Complete /\ InDomain(st)) =>
